@@ -179,6 +179,8 @@ PROPS["C12"] = P(
         J("c12_langid_eq_ord_v2", tier="t", unwind=6, uw=VAL_UW, desc="as above, <=2 variants per side", weight=3, mem_gb=12),
         J("c12_langid_hash", unwind=6, uw=mk({r"Fnv|hash": 10}, VAL_UW), desc="equal values hash equally (fixed rotate-xor hasher), <=2 variants", weight=2),
         J("c12_routes_no_variants", unwind=6, uw=mk({r"Fnv|hash": 24}, VEC_UW, VAL_UW), stubs=VEC_STUBS, desc="set_variants(&[]) / clear_variants / from_parts(.., &[]) / never set: ==, same hash, Equal; any langid with <=2 variants", weight=2, mem_gb=24),
+        J("c12_route_set_empty_over_one", unwind=6, uw=mk({r"Fnv|hash": 24}, VEC_UW, VAL_UW), stubs=VEC_STUBS, desc="language-region identifier with exactly one variant: set_variants(&[]) == never had variants (==, Equal, same hash)", weight=2, mem_gb=16),
+        J("c12_eq_str_near_misses", unwind=8, uw=mk({r"Split|position|c12::": 8}, tok_uw(2), FMT_UW), stubs=STR_STUBS + PARSER_STUBS, desc="the concrete identifier en-US against 9 near-miss strings (longer, shorter, other case / separator, padded, empty): enumerated guard", weight=1),
         J("c12_ulist_eq_3_3", tier="t", unwind=6, uw=mk({r"Fnv|hash": 10, r"umodel_eq|c12::": 6}, xuw(2)), stubs=EXT_STUBS, desc="two -u- lists parsed from [S(3),S(3)]: == iff same canonical content, Equal iff ==, antisymmetric, equal => same hash", weight=4, mem_gb=24, cbmc=NOPTR),
         J("c12_ulist_eq_2_3", tier="t", unwind=6, uw=mk({r"Fnv|hash": 10, r"umodel_eq|c12::": 6}, xuw(2)), stubs=EXT_STUBS, desc="two -u- lists parsed from [S(2),S(3)] (one keyword each)", weight=5, mem_gb=40, cbmc=NOPTR, timeout_t=5400),
         J("c12_routes_ext", unwind=6, uw=mk({r"Fnv|hash": 10}, C10_UW), stubs=INSREM + EXT_STUBS, desc="attribute / private tag added then removed == never added: ==, same hash, Equal", weight=2, mem_gb=12, cbmc=NOPTR),
@@ -203,8 +205,8 @@ PROPS["C13"] = P(
         J("c13_ref_lemma_3", unwind=6, uw=tok_uw(3), desc="reference only, 3 x T9"),
         J("c13_ref_lemma_4", unwind=6, uw=tok_uw(4), desc="reference only, 4 x T9"),
         J("c13_glue_cut_len1", tier="t", unwind=4, uw=mk({r"Split|position|c13::": 3}, tok_uw(1)), stubs=PARSER_STUBS + ["unic_locale_impl::extensions::ExtensionsMap::try_from_iter"], desc="Locale::from_bytes vs LanguageIdentifier::from_bytes on every 1-byte string, the real parse_locale glue with the extension parser cut for non-exhausted iterators", weight=2, mem_gb=16),
-        J("c13_glue_cut_len2", tier="t", unwind=5, uw=mk({r"Split|position|c13::": 4}, tok_uw(2)), stubs=PARSER_STUBS + ["unic_locale_impl::extensions::ExtensionsMap::try_from_iter"], desc="same on every 2-byte string (every two-letter language)", weight=3, mem_gb=24),
-        J("c13_glue_cut_len3", tier="t", unwind=6, uw=mk({r"Split|position|c13::": 5}, tok_uw(3)), stubs=PARSER_STUBS + ["unic_locale_impl::extensions::ExtensionsMap::try_from_iter"], desc="same on every 3-byte string", weight=4, mem_gb=30),
+        J("c13_glue_cut_len2", tier="t", unwind=5, uw=mk({r"Split|position|c13::": 4}, tok_uw(2)), stubs=PARSER_STUBS + ["unic_locale_impl::extensions::ExtensionsMap::try_from_iter"], desc="same on every 2-byte string (every two-letter language)", weight=3, mem_gb=40),
+        J("c13_glue_cut_len3", tier="x", unwind=6, uw=mk({r"Split|position|c13::": 5}, tok_uw(3)), stubs=PARSER_STUBS + ["unic_locale_impl::extensions::ExtensionsMap::try_from_iter"], desc="same on every 3-byte string", weight=4, mem_gb=30),
         J("c13_locale_glue_lang2", tier="t", unwind=5, uw=glue_uw(2, 1), stubs=TLIST_STUBS, desc="Locale::from_bytes vs LanguageIdentifier::from_bytes on every 2-byte string without separator (symbolic language through the real parse_locale)", weight=3, mem_gb=30, cbmc=NOPTR),
         J("c13_locale_glue_lang3", tier="x", unwind=6, uw=glue_uw(3, 1), stubs=TLIST_STUBS, desc="same on every 3-byte string without separator", weight=3, mem_gb=16, cbmc=NOPTR),
         J("c13_locale_glue_lang2_us", tier="x", unwind=8, uw=glue_uw(5, 2), stubs=TLIST_STUBS, desc="same on '??-US', ?? any two non-separator bytes", weight=4, mem_gb=24, cbmc=NOPTR),
@@ -356,7 +358,7 @@ PROPS["C09"] = P(
         J("c09_case_1", unwind=6, uw=mk(tok_uw(1), {r"recase|c09::": 10}), stubs=PARSER_STUBS, desc="1 x T9 vs the same subtag under a symbolic letter-case mask"),
         J("c09_case_2", unwind=6, uw=mk(tok_uw(2), {r"recase|c09::": 10}), stubs=PARSER_STUBS, desc="2 x T9 under a symbolic case mask", weight=3, mem_gb=12),
         J("c09_case_3", tier="t", unwind=6, uw=mk(tok_uw(3), {r"recase|c09::": 10}), stubs=PARSER_STUBS, desc="3 x T9 under a symbolic case mask", weight=4, mem_gb=20),
-        J("c09_variant_order", tier="t", unwind=6, uw=mk(tok_uw(4), {r"c09::": 10}), stubs=PARSER_STUBS, desc="[L,V1,V2] vs [L,V2,V1] vs [L,V1,V2,V1], all T9", weight=5, mem_gb=24),
+        J("c09_variant_order", tier="t", unwind=6, uw=mk(tok_uw(4), {r"c09::": 10}), stubs=PARSER_STUBS, desc="[L,V1,V2] vs [L,V2,V1] vs [L,V1,V2,V1], all T9", weight=5, mem_gb=40),
         J("c09_attr_order", unwind=6, uw=mk({r"c09::|recase": 10}, xuw(3)), stubs=EXT_STUBS, desc="-u- attributes [A1,A2] vs [A2,A1] (order), A1/A2 any 3 bytes; compared through attributes()", weight=3, mem_gb=16, cbmc=NOPTR),
         J("c09_attr_repeat", unwind=6, uw=mk({r"c09::|recase": 10}, xuw(3)), stubs=EXT_STUBS, desc="-u- attributes [A1,A2] vs [A1,A2,A1] (repetition), A1/A2 any 3 bytes; compared through attributes()", weight=3, mem_gb=16, cbmc=NOPTR),
         J("c09_sep_concrete", unwind=13, uw=mk({r"Split|position|c09::": 13}, tok_uw(3)), stubs=PARSER_STUBS, desc="the four '-'/'_' spellings of 'en-US-macos' through from_bytes (finite, enumerated)", weight=2),
@@ -365,7 +367,7 @@ PROPS["C09"] = P(
         J("c09_t_case_2_3", tier="t", unwind=6, uw=mk({r"c09::|recase": 10}, xuw(2)), stubs=TLIST_STUBS, desc="-t- body [S(2),S(3)] under a symbolic case mask", weight=5, mem_gb=40, cbmc=NOPTR),
         J("c09_keyword_order", tier="t", unwind=6, uw=mk({r"c09::|recase": 10}, xuw(4)), stubs=EXT_STUBS, desc="-u- keywords [k1,v1,k2,v2] vs [k2,v2,k1,v1], distinct keys (two map entries)", weight=5, mem_gb=40, cbmc=NOPTR, timeout_t=5400),
         J("c09_tfield_order", tier="t", unwind=6, uw=mk({r"c09::|recase": 10}, xuw(4)), stubs=TLIST_STUBS, desc="-t- fields [k1,v1,k2,v2] vs [k2,v2,k1,v1], distinct keys", weight=5, mem_gb=40, cbmc=NOPTR, timeout_t=5400),
-        J("c09_sep_langid", tier="t", unwind=18, uw=mk({r"Split|position|c09::": 18}, tok_uw(3)), stubs=PARSER_STUBS, desc="'en?Latn?US?macos' with every ? either '-' or '_' vs the all-'-' spelling, through from_bytes", weight=3, mem_gb=16),
+        J("c09_sep_langid", tier="x", unwind=18, uw=mk({r"Split|position|c09::": 18}, tok_uw(3)), stubs=PARSER_STUBS, desc="'en?Latn?US?macos' with every ? either '-' or '_' vs the all-'-' spelling, through from_bytes", weight=3, mem_gb=16),
         J("c09_separators_4", tier="x", unwind=8, uw=mk({r"Split|position|c09::": 7}, tok_uw(5)), stubs=PARSER_STUBS, desc="every byte string <= 4 bytes with '-'/'_' exchanged under a symbolic mask, through from_bytes", weight=4, mem_gb=16),
     ],
     bounds="quick: letter case on 1..2 fully symbolic subtags of a language identifier (symbolic 72-bit case mask per subtag) and on the -u- frame [3]; order and repetition of two -u- attributes (any 3 bytes each); the four separator spellings of 'en-US-macos'. thorough adds: case on 3 subtags, on the -u- frame [2,3] and the -t- frame [2,3]; variant order/repetition on [L,V1,V2]; keyword and tfield order with distinct keys; 'en?Latn?US?macos' with symbolic separators",
@@ -487,7 +489,7 @@ def under(cfg, pid, name, tier="q"):
 # harnesses that assert exact agreement with a feature-independent reference (or a law of the library alone)
 C20_SET = [("C15", "c15_language_exact"), ("C15", "c15_script_exact"), ("C15", "c15_region_exact"), ("C15", "c15_variant_exact"),
            ("C02", "c02_tokens_2"), ("C04", "c04_langid_display_v0"), ("C11", "c11_langid_formula_v1"), ("C12", "c12_langid_eq_ord_v1"),
-           ("C10", "c10_attr_history_2"), ("C10", "c10_variants_2"), ("C03", "c03_u_2_3"), ("C13", "c13_superset_1"), ("C12", "c12_langid_eq_str")]
+           ("C10", "c10_attr_history_2"), ("C10", "c10_variants_2"), ("C03", "c03_u_2_3"), ("C13", "c13_superset_1"), ("C12", "c12_langid_eq_str"), ("C12", "c12_eq_str_near_misses")]
 _c20 = []
 for cfg_ in FACADE_CFGS:
     quick_cfg = cfg_ in ("facade_none", "facade_likel_serde_macro")
